@@ -321,7 +321,9 @@ SPECS["C05"] = CheckSpec(
 SPECS["C07"] = CheckSpec(
     "C07", c07_jobs,
     rule="explicit-state BFS over conversations with clock events: answers {correct, new data, Cache Reset, no-data, "
-         "reload/delta cut after the first payload PDU then timeout / transport error, duplicate announcement, timeout}, "
+         "reload/delta cut after the first payload PDU then timeout / transport error, duplicate announcement, timeout, "
+         "and the three ways down to protocol version 0 (Unsupported-Version report carrying 0, version-0 answer as "
+         "first PDU of a connection, close during a reload)}, "
          "transport open {ok, fails, fails after more than the expire interval}, events while ESTABLISHED {refresh, "
          "stop/start, transport error}, stop requests during retry sleeps; interval settings (1,1,600) (3,2,600) "
          "(700,1,600) and compressed-time (3,2,8) (2,1,5); the monitor keeps its own time of the last completed "
@@ -363,7 +365,8 @@ SPECS["C13"] = CheckSpec(
          "cache's version, new data, Unsupported-Version report carrying a lower / the same / an unsupported higher / "
          "version 1 (a higher SUPPORTED version once the client is at 0), close "
          "without answer, answer in version 0, one PDU with another version inside a response, End of Data in the other "
-         "version's format, answer in version 2, timeout} against caches speaking version 1 and version 0; a model "
+         "version's format, answer in version 2, a version-2 Cache Response followed on the same connection by a complete "
+         "version-0 answer (which is not 'the first PDU of a connection'), timeout} against caches speaking version 1 and version 0; a model "
          "variable v (starts at 1, lowered only by the three rules of the statement) must equal the version byte of "
          "every PDU sent; refused PDUs must be answered with error code 8 before the next query, must not end in "
          "ESTABLISHED and must not change the records; rule (ii) must reconnect without sleeping",
@@ -499,11 +502,13 @@ def c03_jobs(tier, repo):
     if tier == "quick":
         return (_bj("C03", ["--n=2", "--bound=1"], "responses <=2 PDUs, 1 transport fault", 4)
                 + _bj("C03", ["--n=3", "--bound=0"], "responses <=3 PDUs", 6)
-                + _bj("C03", ["--n=4", "--small-alphabet", "--bound=0"], "responses <=4 PDUs, announce/withdraw alphabet", 6))
+                + _bj("C03", ["--n=4", "--small-alphabet", "--bound=0"], "responses <=4 PDUs, announce/withdraw alphabet", 6)
+                + _bj("C03", ["--bulk", "--n=2", "--bound=0"], "responses <=2 symbols incl. blocks of 100/101/201 records (PDU store growth)", 8))
     return (_bj("C03", ["--n=3", "--bound=1"], "responses <=3 PDUs, 1 transport fault", 16)
             + _bj("C03", ["--n=2", "--bound=2"], "responses <=2 PDUs, 2 transport faults", 8)
             + _bj("C03", ["--n=4", "--bound=0"], "responses <=4 PDUs", 16)
-            + _bj("C03", ["--n=5", "--small-alphabet", "--bound=0"], "responses <=5 PDUs, announce/withdraw alphabet", 8))
+            + _bj("C03", ["--n=5", "--small-alphabet", "--bound=0"], "responses <=5 PDUs, announce/withdraw alphabet", 8)
+            + _bj("C03", ["--bulk", "--n=3", "--bound=0"], "responses <=3 symbols incl. blocks of 100/101/201 records (PDU store growth)", 32))
 
 
 _BYTES_NOTE = ("Direct calls of the real rtr_sync / rtr_wait_for_sync (C04, C14) and the real FSM thread (C03) over the "
@@ -538,7 +543,8 @@ SPECS["C14"] = CheckSpec(
     rule="the C04 streams with an identifiable offending PDU (bad length, unknown type, foreign version, unexpected PDU, "
          "session mismatch in Cache Response / End of Data, duplicate announcement, unknown withdrawal, bad flags / "
          "over-long prefix, received Error Report) x partial-write patterns of send (all, 1 byte, half, error) as "
-         "deviations; every byte handed to send() must parse into complete PDUs of the negotiated version with length "
+         "deviations (one per execution together with read deviations, and up to three on the send side alone: several "
+         "short writes of one report); every byte handed to send() must parse into complete PDUs of the negotiated version with length "
          "field = bytes and <= 3248; the first Error Report must carry an accepted code for the class, encapsulate a "
          "byte-exact prefix of the offending PDU as received, and have consistent lengths; none after a received Error "
          "Report; MSan jobs test the shadow of every send buffer",
@@ -562,7 +568,10 @@ SPECS["C03"] = CheckSpec(
          "of present / absent IPv4, IPv6 and router-key records incl. the twin of the other source's record, flags=2, "
          "Serial Notify, Reset Query, Cache Reset, Cache Response, bad-length PDU, Error Report, wrong-version PDU) x 5 "
          "terminators (End of Data ok / foreign session, timeout, transport error, close), plus one transport fault at "
-         "every receive call of the response; the FSM runs on until its next query; oracle per the statement",
+         "every receive call of the response; a second family ('bulk') over 28 symbols adds blocks of 100 / 101 / 201 "
+         "numbered IPv4 / IPv6 / router-key announcements and withdrawals of 101 held records, so that the client's "
+         "temporary PDU stores (grown in steps of 100) grow zero, one and two times before the point of failure and "
+         "roll-backs span several hundred records; the FSM runs on until its next query; oracle per the statement",
     assumptions=["responses longer than the bound and record universes other than the 7-record one are not enumerated"],
     counters_map={"distinct": ["distinct_outcomes"]},
     level_text="Exhaustive enumeration of a bounded response family against a sequential reference model, executed "
@@ -848,7 +857,8 @@ SPECS["C18"] = CheckSpec(
     "C18", c18_jobs,
     rule="with a user allocator installed through lrtr_set_alloc_functions (every block tagged with a header): (fault) "
          "5 prefix-table seed states x 12 operations, 7 key-table sizes (0,1,31,32,33,64,65: below / at / beyond the "
-         "resize steps) x 7 operations, and 5 cache responses through the real rtr_sync; for each the number n of "
+         "resize steps) x 7 operations, and 8 cache responses through the real rtr_sync (deltas and reloads that succeed, "
+         "fail and roll back, three of them with 3 x 101 records so that the temporary PDU stores grow); for each the number n of "
          "allocations is measured and the case is re-run n times with the k-th allocation failing, k = 1..n; a call that "
          "reports an error must leave the contents unchanged (as a set), a call that absorbs the failure must have its "
          "full effect, after a failed synchronisation the tables must still behave as sets and another source's records "
